@@ -21,3 +21,11 @@ package functions
 //@ func RoundDown
 //@   nopanic
 //@   requires num != nil
+
+// the argument-count wrapper: the wrapped function is only ever called with a permitted number of arguments (this is
+// what the sweep's per-function arity facts - taken from the constants at the registration sites - rest on)
+//@ func MinAndMaxArgsCheck$1
+//@   nopanic
+//@   requires f != nil
+//@   callback f(cenv, cargs)
+//@   cb_requires [arity] (min == max ==> len(cargs) == min) && ((min != max && max < 0) ==> len(cargs) >= min) && ((min != max && max >= 0) ==> (len(cargs) >= min && len(cargs) <= max))
